@@ -151,7 +151,7 @@ func isStubWire(l []W) bool {
 func checkC17(c *Check) {
 	c.Level = "translation_validation"
 	c.Explanation = "Tables cross-checked by constant evaluation over every corpus: each meta registration literal TLItemImpl{Name,Tag,HaTL1,HaTL2} ↔ the factory registration of the same name ↔ the Go type it constructs: TLName()/TLTag() constants equal the registered name/tag, the tag written first by WriteTL1Boxed equals the registered tag, function-ness (FillFunction / factory ForFunction) ⇔ the type has result transcoders, HaTL1/HaTL2 ⇔ the type's TL1/TL2 readers are real rather than 'not generated' stubs; names and non-zero tags are pairwise distinct; every meta item has a factory constructor and vice versa."
-	c.NotCovered = "agreement with the schema text itself (the schema is seen only through the generator); annotation flags are compared between meta literal and nothing else"
+	c.NotCovered = "agreement with the schema beyond names, explicit tags, annotations and function-ness, which are compared against an independent scan of the TL1 schema text (TL2 schema files are not scanned)"
 	c.Trusted = []string{"go/types constant folding"}
 	programs := 0
 	withCorpora(c, true, func(g *genCtx) {
@@ -244,6 +244,7 @@ func checkC17(c *Check) {
 			it := &items[i]
 			c.Ob("meta-has-factory", cn+":"+it.Name, registered[it.Name], it.Pos, "every registered item has a factory constructor")
 		}
+		g.registryVsSchemaText(c, cn, byName)
 	})
 	c.Set("programs", programs)
 	c.Floor("registry-name-unique", 300)
@@ -254,6 +255,9 @@ func checkC17(c *Check) {
 	c.Floor("registry-hasTL2", 200)
 	c.Floor("registry-boxed-starts-with-tag", 150)
 	c.Floor("registry-functionness", 300)
+	c.Floor("registry-annotations", 150)
+	c.Floor("registry-function-vs-schema", 150)
+	c.Floor("registry-explicit-tag-verbatim", 30)
 }
 
 // isNotGeneratedStub: the function returns an error unconditionally without touching input
@@ -288,4 +292,78 @@ func (g *genCtx) stubDepth(fi *FuncInfo, depth int) bool {
 		}
 	}
 	return false
+}
+
+// annotationBits reads the bit of every `Annotation<Name>()` accessor of metainternal.TLItemImpl.
+func (g *genCtx) annotationBits() map[string]uint64 {
+	out := map[string]uint64{}
+	for fn, fi := range g.funcs {
+		if fi.Pkg.Name != "metainternal" || !strings.HasPrefix(fn.Name(), "Annotation") || len(fi.Decl.Body.List) != 1 {
+			continue
+		}
+		ret, ok := fi.Decl.Body.List[0].(*ast.ReturnStmt)
+		if !ok || len(ret.Results) != 1 {
+			continue
+		}
+		ir := g.ir(fi)
+		cd := ir.x.cond(ret.Results[0])
+		if cd.Kind == "bit" && !cd.Neg && strings.HasSuffix(cd.X, ".Annotations") {
+			out[strings.ToLower(strings.TrimPrefix(fn.Name(), "Annotation"))] = 1 << uint(cd.Bit)
+		}
+	}
+	return out
+}
+
+// registryVsSchemaText compares the registry with an independent scan of the TL1 schema files of the
+// corpus: annotation flags, explicit tags (used verbatim) and function-ness per combinator name.
+func (g *genCtx) registryVsSchemaText(c *Check, cn string, byName map[string]*metaItem) {
+	if g.co.InRepo {
+		return
+	}
+	bits := g.annotationBits()
+	for _, sch := range g.co.Spec.Schemas {
+		if !strings.HasSuffix(sch, ".tl") {
+			continue
+		}
+		path := sch
+		if !strings.HasPrefix(path, "/") {
+			path = repoDir + "/" + sch
+		}
+		decls, err := scanTL1(path)
+		if err != nil {
+			c.Undecided("registry-vs-schema", cn, path, err.Error())
+			continue
+		}
+		for _, d := range decls {
+			it := byName[d.Name]
+			if it == nil {
+				continue // builtin, template or inlined wrapper: not a registry item
+			}
+			key := cn + ":" + d.Name
+			var want uint64
+			unknown := ""
+			for _, a := range d.Annotations {
+				b, ok := bits[strings.ToLower(a)]
+				if !ok {
+					unknown = a
+				}
+				want |= b
+			}
+			if unknown != "" {
+				c.Undecided("registry-annotations", key, it.Pos, "schema annotation @"+unknown+" has no accessor in the generated registry")
+				continue
+			}
+			got := it.Annot
+			if got == "" {
+				got = "#0"
+			}
+			c.Ob("registry-annotations", key, got == fmt.Sprintf("#%d", want), it.Pos, fmt.Sprintf("schema %s has annotations %v (mask %d); registry literal has %s", d.File, d.Annotations, want, got))
+			c.Ob("registry-function-vs-schema", key, d.IsFunction == it.IsFunction, it.Pos, fmt.Sprintf("schema function=%v registry function=%v", d.IsFunction, it.IsFunction))
+			if d.Tag != "" {
+				var tv uint64
+				fmt.Sscanf(d.Tag, "%x", &tv)
+				c.Ob("registry-explicit-tag-verbatim", key, it.Tag == fmt.Sprintf("#%d", tv), it.Pos, fmt.Sprintf("schema tag #%s, registry %s", d.Tag, it.Tag))
+			}
+		}
+	}
 }
